@@ -9,6 +9,8 @@ use syn::{Data, DeriveInput, Fields, Meta, Token};
 use crate::scenario::{execute, Obs, Op, Scenario, World};
 
 pub struct Shrinker {
+    /// real-time deadline (seconds, `seams::real_now_s`): shrinking stops, reporting does not
+    pub deadline: f64,
     pub evals: usize,
     pub budget: usize,
     pub target: usize,
@@ -23,7 +25,7 @@ pub struct Verdict {
 impl Shrinker {
     /// does input `self.target` still get two different outcomes?
     pub fn fails(&mut self, sc: &Scenario) -> Option<Verdict> {
-        if self.evals >= self.budget {
+        if self.evals >= self.budget || crate::seams::real_now_s() > self.deadline {
             return None;
         }
         self.evals += 1;
@@ -142,7 +144,8 @@ pub struct Minimised {
 
 /// `full`: the executed scenario; `a`/`b`: the disagreeing observations (world/op indices refer to `full`).
 pub fn minimise(full: &Scenario, a: &Obs, b: &Obs, budget: usize) -> Option<Minimised> {
-    let mut sh = Shrinker { evals: 0, budget, target: b.input, log: vec![] };
+    let t_start = crate::seams::real_now_s();
+    let mut sh = Shrinker { deadline: t_start + 90.0, evals: 0, budget, target: b.input, log: vec![] };
     // make sure both observations are about the same input index (same text may have two indices)
     let mut inputs = full.inputs.clone();
     if a.input != b.input {
@@ -450,8 +453,12 @@ pub fn minimise(full: &Scenario, a: &Obs, b: &Obs, budget: usize) -> Option<Mini
     }
     let target = remap(sh.target);
     sh.target = target;
+    if crate::seams::real_now_s() > sh.deadline {
+        sh.log.push("minimisation stopped at its 90 s time limit; the scenario may not be minimal".into());
+    }
     // the minimised file must fail the same way, every time, from scratch
     sh.budget += 3;
+    sh.deadline = crate::seams::real_now_s() + 120.0;
     let mut confirmed = 0;
     for _ in 0..3 {
         if let Some(v) = sh.fails(&fin) {
@@ -606,11 +613,43 @@ fn split_top_level_commas(ts: &proc_macro2::TokenStream) -> Option<Vec<proc_macr
     Some(parts)
 }
 
+/// index ranges to drop at once: halves, quarters, eighths (big inputs shrink by chunks first)
+fn chunks(n: usize) -> Vec<(usize, usize)> {
+    let mut v = vec![];
+    let mut parts = 2;
+    while parts <= 8 && n / parts >= 2 {
+        let size = n / parts;
+        for k in 0..parts {
+            let a = k * size;
+            let b = if k + 1 == parts { n } else { a + size };
+            v.push((a, b));
+        }
+        parts *= 2;
+    }
+    v
+}
+
+/// for very long lists only a sample of the single-element reductions is generated (memory)
+fn singles(n: usize) -> Vec<usize> {
+    if n <= 24 {
+        (0..n).collect()
+    } else {
+        let mut v: Vec<usize> = (0..6).collect();
+        v.extend(n - 6..n);
+        v
+    }
+}
+
 fn fields_reductions(fields: &Fields) -> Vec<Fields> {
     let mut out = vec![];
     match fields {
         Fields::Named(n) => {
-            for i in 0..n.named.len() {
+            for (a, b) in chunks(n.named.len()) {
+                let mut m = n.clone();
+                m.named = n.named.iter().enumerate().filter(|(j, _)| *j < a || *j >= b).map(|(_, f)| f.clone()).collect();
+                out.push(Fields::Named(m));
+            }
+            for i in singles(n.named.len()) {
                 let mut m = n.clone();
                 m.named = n.named.iter().enumerate().filter(|(j, _)| *j != i).map(|(_, f)| f.clone()).collect();
                 out.push(Fields::Named(m));
@@ -625,7 +664,12 @@ fn fields_reductions(fields: &Fields) -> Vec<Fields> {
             }
         },
         Fields::Unnamed(u) => {
-            for i in 0..u.unnamed.len() {
+            for (a, b) in chunks(u.unnamed.len()) {
+                let mut m = u.clone();
+                m.unnamed = u.unnamed.iter().enumerate().filter(|(j, _)| *j < a || *j >= b).map(|(_, f)| f.clone()).collect();
+                out.push(Fields::Unnamed(m));
+            }
+            for i in singles(u.unnamed.len()) {
                 let mut m = u.clone();
                 m.unnamed = u.unnamed.iter().enumerate().filter(|(j, _)| *j != i).map(|(_, f)| f.clone()).collect();
                 out.push(Fields::Unnamed(m));
@@ -682,7 +726,14 @@ pub fn input_candidates(text: &str) -> Vec<String> {
             }
         },
         Data::Enum(e) => {
-            for i in 0..e.variants.len() {
+            for (a, b) in chunks(e.variants.len()) {
+                let mut d = di.clone();
+                if let Data::Enum(de) = &mut d.data {
+                    de.variants = e.variants.iter().enumerate().filter(|(j, _)| *j < a || *j >= b).map(|(_, v)| v.clone()).collect();
+                }
+                out.push(print(&d));
+            }
+            for i in singles(e.variants.len()) {
                 let mut d = di.clone();
                 if let Data::Enum(de) = &mut d.data {
                     de.variants = e.variants.iter().enumerate().filter(|(j, _)| *j != i).map(|(_, v)| v.clone()).collect();
